@@ -453,7 +453,26 @@ func cmdPrep(root, inFile, outFile string) int {
 			if y := cfg.GoagYAML(); y != nil {
 				os.WriteFile(cfgFile, y, 0o644)
 			}
-			cmd := exec.Command(cli, cfg.CLIArgs(specFile, cfgFile, out)...)
+			args := cfg.CLIArgs(specFile, cfgFile, out)
+			// where the files lie, as users have them: absolute paths; or the spec in a
+			// sub-directory and the config beside the working directory, both named
+			// relative to it; or the config left to its default name (.goag.yaml)
+			if layout := splitmix(hashStr(s.Name)+11) % 3; layout != 0 {
+				os.Remove(specFile)
+				os.MkdirAll(filepath.Join(wd, "api"), 0o755)
+				os.WriteFile(filepath.Join(wd, "api", cfg.SpecName()), raw, 0o644)
+				args = cfg.CLIArgs(filepath.Join("api", cfg.SpecName()), ".goag.yaml", out)
+				if layout == 2 {
+					for i := 0; i+1 < len(args); i++ {
+						if args[i] == "--config" {
+							args = append(args[:i], args[i+2:]...)
+							break
+						}
+					}
+				}
+				via = fmt.Sprintf("cli:relative-paths-%d", layout)
+			}
+			cmd := exec.Command(cli, args...)
 			cmd.Dir = wd
 			if cout, err := cmd.CombinedOutput(); err != nil {
 				oc.Err = fmt.Errorf("%v: %s", err, clipStr(string(cout), 300))
